@@ -402,8 +402,18 @@ func (w *World) orderDependentEffects(ml *mapLoop) []string {
 			}
 		case *ast.ReturnStmt:
 			for _, res := range x.Results {
-				if w.mentions(res, derivedList...) && !underLoopCond(x) {
+				if !w.mentions(res, derivedList...) {
+					continue
+				}
+				if !underLoopCond(x) {
 					eff = append(eff, fmt.Sprintf("returns a value that depends on which entry is visited first (%s)", w.pos(x)))
+					break
+				}
+				if t := w.Info.TypeOf(res); t != nil && types.Identical(t, types.Universe.Lookup("error").Type()) {
+					continue // which of several failures is reported is not rendered output
+				}
+				if !w.underKeyEquality(ml, x, derivedList) {
+					eff = append(eff, fmt.Sprintf("returns the first visited entry that passes a test which is not an equality on the key itself: when two entries pass, the order of iteration picks the result (%s)", w.pos(x)))
 					break
 				}
 			}
@@ -827,4 +837,90 @@ func (w *World) loaderRoots() []*ssa.Function {
 		}
 	}
 	return roots
+}
+
+
+// underKeyEquality: statement n sits, inside the loop, in the then-branch of an `if` (or the
+// clause of a switch) one of whose conjuncts compares the loop's KEY ITSELF for equality with
+// something that does not vary with the iteration.  Map keys are distinct, so at most one entry
+// passes; a test on anything computed from the key (its printed form, its lower-cased form, a
+// prefix) or on the value can pass for several entries.
+func (w *World) underKeyEquality(ml *mapLoop, n ast.Node, derived []types.Object) bool {
+	var isRawKey func(e ast.Expr) bool
+	isRawKey = func(e ast.Expr) bool {
+		e = ast.Unparen(e)
+		switch x := e.(type) {
+		case *ast.Ident:
+			o := w.Info.Uses[x]
+			if o == nil {
+				return false
+			}
+			switch ml.kind {
+			case "range over map":
+				return o == ml.key
+			case "range over MapKeys()", "range over MapKeys() result":
+				return o == ml.val
+			}
+		case *ast.IndexExpr:
+			if ml.keysV != nil && identObj(w, x.X) == ml.keysV {
+				return true
+			}
+		case *ast.CallExpr:
+			sel, ok := x.Fun.(*ast.SelectorExpr)
+			if !ok || len(x.Args) != 0 {
+				return false
+			}
+			// reflect.Value.Interface() of the key; MapIter.Key()
+			if isNamed(w.Info.TypeOf(sel.X), "reflect", "Value") && sel.Sel.Name == "Interface" {
+				return isRawKey(sel.X)
+			}
+			if isNamed(w.Info.TypeOf(sel.X), "reflect", "MapIter") && sel.Sel.Name == "Key" {
+				return true
+			}
+		}
+		return false
+	}
+	var conjunctOK func(c ast.Expr) bool
+	conjunctOK = func(c ast.Expr) bool {
+		c = ast.Unparen(c)
+		b, ok := c.(*ast.BinaryExpr)
+		if !ok {
+			return false
+		}
+		if b.Op == token.LAND {
+			return conjunctOK(b.X) || conjunctOK(b.Y)
+		}
+		if b.Op != token.EQL {
+			return false
+		}
+		if isRawKey(b.X) && !w.mentions(b.Y, derived...) {
+			return true
+		}
+		if isRawKey(b.Y) && !w.mentions(b.X, derived...) {
+			return true
+		}
+		return false
+	}
+	var child ast.Node = n
+	for p := w.parents[n]; p != nil && p != ml.stmt; child, p = p, w.parents[p] {
+		switch x := p.(type) {
+		case *ast.IfStmt:
+			if child == ast.Node(x.Body) && conjunctOK(x.Cond) {
+				return true
+			}
+		case *ast.CaseClause:
+			if sw, ok := w.parents[w.parents[x]].(*ast.SwitchStmt); ok && sw.Tag != nil && isRawKey(sw.Tag) {
+				okAll := len(x.List) > 0
+				for _, e := range x.List {
+					if w.mentions(e, derived...) {
+						okAll = false
+					}
+				}
+				if okAll {
+					return true
+				}
+			}
+		}
+	}
+	return false
 }
